@@ -40,6 +40,8 @@ DEP = [M(0, "O", -1), M(1, ["lit", 0]), M(2, ["lit", 1]), M(3, ["dep", "int", "p
 V = {"k0": K0(), "k1": K1(), "k2": K2(), "5": 5, "s": "s", "0": 0, "1": 1, "2": 2}
 # the K0 method delegates with call_next on a K1 value (which it accepts itself: it is the middle candidate for K1)
 CNV = [M(0, "O"), dict(M(1, "K0", 0, "cnv"), env={"__v": V["k1"]}), M(2, "K1", 1, "cn"), M(3, "int")]
+# an optional second positional parameter: the generated entry point has defaults of its own (installed next to its code)
+OPT = [M(0, "O"), {"id": 1, "shape": gen.SHAPES["xy?"], "types": {"x": "K0", "y": "int"}, "prio": 0}, M(2, "K1", 1, "cn"), M(3, "int")]
 # the int method delegates with call_next on a K1 value, which it does NOT accept (the fresh-call path of call_next)
 CNF = [M(0, "O"), M(1, "K0", 0, "cn"), M(2, "K1", 1, "cn"), dict(M(3, "int", 0, "cnv"), env={"__v": V["k1"]})]
 
@@ -54,6 +56,7 @@ def scenarios(tier):
         ("S3:call_next-chains", CHAIN, [("k1",)], [("k1",), ("k0",)], ["k0", "k1", "5"], "dispatch"),
         ("S4:dependent-dispatcher", DEP, [("s",)], [("2",), ("1",)], ["0", "1", "2", "s"], "dispatch"),
         ("S6:call_next-on-another-value,racing-its-first-resolution", CNV, [("5",)], [("k0",), ("k1",)], ["k0", "k1", "5"], "dispatch"),
+        ("S8:first-calls,optional-parameter-omitted", OPT, [], [("k1",), ("k0",)], ["k0", "k1", "5"], "dispatch"),
         ("S7:call_next-fresh-call-path,racing-the-resolution-of-its-target", CNF, [("s",)], [("5",), ("k1",)], ["k0", "k1", "5"], "dispatch"),
     ]
     if True:
@@ -256,7 +259,7 @@ def main(tier):
              f"dispatch / build / resolution code; all schedules with at most {cfg['bound']} preemption(s) (iterative context bounding; "
              "first calls racing the lazy build: bound 1 anywhere plus one more preemption located before the build lock is taken - bootstrap entry point, ensure_compiled, prologue of compile) over scenarios S1 racing first calls (same / different arguments, through "
              "the dispatch function, Ovld.__call__, a bound method), S2 racing cache misses (same / different / position-sharing "
-             "tuples), S3 racing call_next chains, S4 racing dependent dispatchers, S6 / S7 call_next on a value of another type (accepted / not accepted by the caller) racing the first direct resolution of that type; oracle: each thread's result equals its result "
+             "tuples), S3 racing call_next chains, S4 racing dependent dispatchers, S8 first calls that omit an optional parameter, S6 / S7 call_next on a value of another type (accepted / not accepted by the caller) racing the first direct resolution of that type; oracle: each thread's result equals its result "
              "alone (both sequential orders agree), no deadlock, and afterwards every probe equals the fault-free function; "
              "non-trivial = schedules with at least one preemption",
         assumptions=["switches happen between source lines of the visible library functions (thorough: bound 1 re-run with every "
